@@ -72,8 +72,8 @@ Enums ==
     \* explicit discriminants (unit-only, explicit repr): declared value differs from index
     \cup {Enum(r, <<VarD("5", <<>>), VarD("10", <<>>)>>) : r \in {"u8", "u16", "u32"}}
     \cup {Enum(r, <<VarD("1", <<>>), VarD("0", <<>>)>>) : r \in {"u8"}}
-    \cup {BigEnum("", 257)}
-    \cup (IF Tier = "thorough" THEN {BigEnum("", 65537), BigEnum("u8", 256), BigEnum("u16", 257)} ELSE {})
+    \cup {BigEnum("", 256), BigEnum("", 257)}
+    \cup (IF Tier = "thorough" THEN {BigEnum("", 65536), BigEnum("", 65537), BigEnum("u8", 256), BigEnum("u16", 257)} ELSE {})
 
 Composites == (IF Tier = "thorough" THEN StructsT ELSE StructsQ) \cup Enums
 SmallComposites == {c \in Composites : c.n = 0 /\ Len(c.ts) <= 2}
@@ -88,6 +88,9 @@ Wrap2 ==
     \cup {Vec("Vec", w) : w \in {Vec("Vec", P("u8")), Opt(P("u32")), Arr(P("u16"), 3), Tup(<<P("u8"), P("u8")>>),
                                  Tup(<<P("u8"), P("u32")>>), Str, Arr(P("bool"), 3)}}
     \cup {Opt(Opt(P("u8"))), Opt(Vec("Vec", Str)), Arr(Arr(P("u8"), 2), 2), Bx("Box", Vec("Vec", P("u16")))}
+    \* value types that contain a container of the key type (recursion guard of the map impls)
+    \cup {Map(k, P("u32"), Vec("Vec", P("u32"))) : k \in MapKinds}
+    \cup {Map(k, Str, Opt(Vec("Vec", Str))) : k \in {"HashMap", "BTreeMap"}}
 
 Catalogue == Leaves \cup Wrap1 \cup Composites \cup Wrap2
 
